@@ -1,10 +1,10 @@
-\* quick, strings: every string of <= 3 graphemes over all 7 kinds, as a one-item line
+\* thorough, strings: every string of <= 5 graphemes over all 7 kinds, as a one-item line
 CONSTANTS
   KindIds = {1, 2, 3, 4, 5, 6, 7}
-  MaxLen = 3
+  MaxLen = 5
   MaxItems = 1
-  MaxW = 4
-  ND = 3
+  MaxW = 6
+  ND = 4
   Orig = FALSE
   GW <- MCGW
   GB <- MCGB
@@ -14,4 +14,4 @@ CONSTANTS
   Delims <- MCDelims
 SPECIFICATION Spec
 INVARIANTS NoPanic WidthBound Shape StrSound IterBound FuncAgrees EmitInv
-PROPERTIES Decreases
+PROPERTIES Decreases Termination
